@@ -138,6 +138,8 @@ for cdir, pkg, groups in curves:
         op("Jac.IsOnCurve", "oncurve", ["jac"], "bool", 0, "\t\t\ta := jac(in[0]); return repBool(a.IsOnCurve())")
         op("Jac.IsInSubGroup", "insubgroup", ["jac"], "bool", 0, "\t\t\ta := jac(in[0]); return repBool(a.IsInSubGroup())")
         op("Jac.ScalarMultiplication", "smul", ["jac"], "jac", 1, "\t\t\ta := jac(in[0]); var r %s; r.ScalarMultiplication(&a, sc[0]); return repJac(&r)" % J)
+        op("Jac.ScalarMultiplication/inplace", "smul", ["jac"], "jac", 1, "\t\t\ta := jac(in[0]); a.ScalarMultiplication(&a, sc[0]); return repJac(&a)")
+        op("Affine.ScalarMultiplication/inplace", "smul", ["aff"], "aff", 1, "\t\t\ta := aff(in[0]); a.ScalarMultiplication(&a, sc[0]); return repAff(&a)")
         if feat["smBaseJac"]:
             op("Jac.ScalarMultiplicationBase", "smulbase", [], "jac", 1, "\t\t\tvar r %s; r.ScalarMultiplicationBase(sc[0]); return repJac(&r)" % J)
         if feat["windowed"]:
@@ -148,6 +150,9 @@ for cdir, pkg, groups in curves:
             op("Jac.JointScalarMultiplication", "jsmul", ["aff", "aff"], "jac", 2, "\t\t\ta, b := aff(in[0]), aff(in[1]); var r %s; r.JointScalarMultiplication(&a, &b, sc[0], sc[1]); return repJac(&r)" % J)
         if feat["jointJac"]:
             op("Jac.JointScalarMultiplication", "jsmul", ["jac", "jac"], "jac", 2, "\t\t\ta, b := jac(in[0]), jac(in[1]); var r %s; r.JointScalarMultiplication(&a, &b, sc[0], sc[1]); return repJac(&r)" % J)
+        if feat["jointJac"]:
+            op("Jac.JointScalarMultiplication/inplace1", "jsmul", ["jac", "jac"], "jac", 2, "\t\t\ta, b := jac(in[0]), jac(in[1]); a.JointScalarMultiplication(&a, &b, sc[0], sc[1]); return repJac(&a)")
+            op("Jac.JointScalarMultiplication/inplace2", "jsmul", ["jac", "jac"], "jac", 2, "\t\t\ta, b := jac(in[0]), jac(in[1]); b.JointScalarMultiplication(&a, &b, sc[0], sc[1]); return repJac(&b)")
         if feat["jointBase"]:
             op("Jac.JointScalarMultiplicationBase", "jsmulbase", ["aff"], "jac", 2, "\t\t\ta := aff(in[0]); var r %s; r.JointScalarMultiplicationBase(&a, sc[0], sc[1]); return repJac(&r)" % J)
         if feat["clearCof"]:
